@@ -327,7 +327,7 @@ def assemble(unit_dir, mode='verify'):
             items.append({'kind': 'fn', 'file': os.path.join(REPO, c.file), 'path': c.path, 'anchors': anchors,
                           'replace_stmt': c.replace_stmt, 'replace_expr': c.replace_expr,
                           'no_rewrite': [k[3:] for k in c.opts if k.startswith('no-')],
-                          'sig_only': c.stub, 'retain': c.opts.get('retain'), 'mutself': bool(c.opts.get('mutself')), 'setiter': [x for x in str(c.opts.get('setiter', '')).split(',') if x and x != 'True']})
+                          'sig_only': c.stub, 'retain': c.opts.get('retain'), 'mutself': bool(c.opts.get('mutself')), 'mutparam': [x for x in str(c.opts.get('mutparam', '')).split(',') if x and x != 'True'], 'setiter': [x for x in str(c.opts.get('setiter', '')).split(',') if x and x != 'True']})
     resp = run_vx(items, meta['features'])
     for it, r in zip(items, resp):
         if not r['ok']:
@@ -441,6 +441,9 @@ def emit_body(g, body, c, r, fn, mode, missing, info):
     def put_lines(sec):
         for ln, t in sec:
             out.append((t, ('tpl', ln)))
+            lm = re.search(r'assert\s*\(.*/\*\s*(C\d\d\.[A-Za-z0-9_.\-]+)\s*\*/', t) or re.search(r'/\*\s*(C\d\d\.[A-Za-z0-9_.\-]+)\s*\*/\s*assert\s*\(', t)
+            if lm and not any(cl.get('label') == lm.group(1) and cl.get('first') == ln for cl in fn['clauses']):
+                fn['clauses'].append({'kind': 'assert', 'label': lm.group(1), 'first': ln, 'last': ln, 'text': t.strip(), 'fn': c.path, 'where': 'site obligation'})
 
     def ats(pos, k=None):
         for a in c.ats:
@@ -576,6 +579,7 @@ def run_verus(path, extra=None, timeout=600):
 FAIL_KINDS = [
     ('postcondition not satisfied', 'postcondition'),
     ('precondition not satisfied', 'precondition'),
+    ('fails to satisfy `callee.requires(args)`', 'precondition'),
     ('invariant not satisfied', 'invariant'),
     ('assertion failed', 'assertion'),
     ('assertion not satisfied', 'assertion'),
